@@ -1,7 +1,7 @@
 (* C27 proofs, layer 6: every member function and free function of the model satisfies its
    pointwise specification whenever it returns without a defect flag, by induction on the recursion
    fuel (all functions are mutually recursive through [run]). *)
-From Coq Require Import QArith Lia Lqa.
+From Coq Require Import QArith Lia Lqa Btauto.
 From SE Require Import C27.SetSpec C27.SetOrder C27.SetNum C27.SetCont C27.SetIvl C27.SetFin.
 Local Open Scope m_scope.
 
@@ -342,10 +342,6 @@ Section WithRec.
   Proof. intros u c o r Huc Ho H. unfold compl_compl in H. apply rec_helper in H; auto. Qed.
 
   (* ---------------------------------------------------------------- free functions *)
-  Lemma in_finite_same : forall r l p, same_elems r l -> in_finite r p = in_finite l p.
-  Proof. intros r l p H. unfold in_finite. apply existsb_same_elems. exact H. Qed.
-  Lemma in_finite_app : forall a b p, in_finite (a ++ b) p = in_finite a p || in_finite b p.
-  Proof. intros. unfold in_finite. apply existsb_app. Qed.
 
   Lemma fu_scan_ok : forall l input comb res,
       forallb wf_set l = true -> forallb wf_set input = true -> forallb num_ok comb = true ->
@@ -471,14 +467,6 @@ Section WithRec.
     intros l a p Hl Ha Hp. apply forallb_ext_in. intros x Hx. apply contains_In; auto. eapply forallb_In; eauto.
   Qed.
 
-  Definition at_pos (a : number) (p : point) : bool := match cmp_np a p with Eq => true | _ => false end.
-  Lemma at_pos_eq : forall a p, at_pos a p = true -> npos a =p ppos p.
-  Proof.
-    intros a p H. unfold at_pos in H. rewrite cmp_np_pos in H. apply PosO.eq_iff.
-    destruct (pos_cmp (npos a) (ppos p)); try discriminate; reflexivity.
-  Qed.
-  Lemma in_finite_cons' : forall a l p, in_finite (a :: l) p = at_pos a p || in_finite l p.
-  Proof. reflexivity. Qed.
 
   Lemma fi_finite_ok : forall elems fsets osets acc c,
       forallb num_ok elems = true -> forallb wf_set fsets = true -> forallb wf_set osets = true ->
@@ -590,7 +578,7 @@ Section WithRec.
     minv.
     apply rec_finter in Hm; [|rewrite forallb_app_wf, Hpre, Hpost; reflexivity]. destruct Hm as [Hw1 Hs1].
     destruct (map_ins_ok (fun c => free_inter2 rec c x) (fun p c => In_set p c && In_set p x) l [] x0) as [I1 [I2 _]]; auto.
-    { intros a y Hin Hy. apply free_inter2_ok in Hy; auto. eapply forallb_In; eauto. }
+    { intros a y Hin Hy. apply free_inter2_ok in Hy; [exact Hy|eapply forallb_In; [exact Hl|exact Hin]|exact Hw1]. }
     apply rec_funion in Hk0; auto. destruct Hk0 as [Hw2 Hs2]. split; [exact Hw2|].
     intro p. rewrite Hs2, I2. simpl. rewrite orb_false_r, existsb_and_r, Hs1.
     rewrite !forallb_app. simpl.
@@ -629,35 +617,25 @@ Section WithRec.
         apply fi_finite_ok in Hm0; auto; [|apply forallb_filter_wf; assumption].
         destruct Hm0 as [Hc Hsf]. split; [apply finiteset_wf; assumption|].
         intro p. rewrite finiteset_In, Hsf, Hs'. simpl.
-        rewrite (forallb_partition (In_set p) is_finite ic). rewrite Ef. simpl.
-        rewrite andb_assoc. reflexivity.
+        rewrite (forallb_partition (In_set p) is_finite ic). rewrite Ef. simpl. btauto.
     - minv. split; [reflexivity|]. intro p. rewrite Hsc. reflexivity.
   Qed.
+
+  Lemma wf_compl : forall u k, wf_set u = true -> wf_set k = true -> wf_set (SCompl u k) = true.
+  Proof. intros u k Hu Hk. simpl. rewrite Hu, Hk. reflexivity. Qed.
 
   Lemma helper_ok : forall k u r, wf_set k = true -> wf_set u = true ->
       helper rec k u = (Ok r, []) ->
       wf_set r = true /\ forall p, In_set p r = In_set p u && negb (In_set p k).
   Proof.
     intros k u r Hk Hu H. unfold helper in H.
-    destruct u; try (minv; split; [simpl; rewrite ?Hk; auto|intro p; reflexivity]).
+    destruct u; try (minv; split; [first [reflexivity|apply wf_compl; assumption]|intro p; reflexivity]).
     - (* FiniteSet universe *) minv. pose proof (nb_ins_all_ok _ _ _ Hm) as Hse. rewrite app_nil_r in Hse.
       simpl in Hu. split.
-      + apply finiteset_wf. apply (forallb_ok_same x _ Hse).
-        clear Hse Hm. induction l as [|a t IH]; simpl in *; [reflexivity|].
-        apply andb_prop in Hu. destruct Hu as [Ha Ht]. destruct (negb (contains k a)); simpl; [rewrite Ha|]; auto.
+      + apply finiteset_wf. apply (forallb_ok_same x _ Hse). apply forallb_filter_ok. exact Hu.
       + intro p. rewrite finiteset_In, (in_finite_same x _ p Hse). simpl.
-        clear Hse Hm. induction l as [|a t IH]; simpl in *; [reflexivity|].
-        apply andb_prop in Hu. destruct Hu as [Ha Ht]. specialize (IH Ht).
-        rewrite in_finite_cons'.
-        destruct (at_pos a p) eqn:Ep.
-        * pose proof (contains_In k a p Hk Ha (at_pos_eq a p Ep)) as Hc. rewrite <- Hc.
-          destruct (contains k a); simpl.
-          -- rewrite IH. unfold in_finite. simpl. fold (in_finite t p).
-             destruct (in_finite t p); simpl; [|reflexivity]. 
-             (* another element at the same position cannot be outside k *) 
-             reflexivity.
-          -- rewrite in_finite_cons', Ep. reflexivity.
-        * simpl. destruct (negb (contains k a)); simpl; [rewrite in_finite_cons', Ep|]; simpl; exact IH.
+        apply (in_finite_filter (fun a => negb (contains k a)) (fun p => negb (In_set p k))).
+        intros a Ha Hp. f_equal. apply contains_In; auto; [eapply forallb_In; eauto|apply at_pos_eq; exact Hp].
     - (* Union universe *) apply wf_union_inv in Hu. destruct Hu as [Hne Hl]. minv.
       destruct (map_ins_ok (fun a => rec (CCompl k a)) (fun p a => In_set p a && negb (In_set p k)) l [] x) as [I1 [I2 _]]; auto.
       { intros a y Hin Hy. apply rec_compl in Hy; auto. eapply forallb_In; eauto. }
